@@ -44,6 +44,7 @@ func main() {
 			continue
 		}
 		fmt.Fprintln(w, safe(h, toks))
+		w.Flush() // one line per finished case on disk: the driver sees which case a hung process was in
 	}
 	w.Flush()
 	out.Close()
